@@ -270,6 +270,8 @@ func init() {
 				floors: map[string]int64{"omission_events": 15000, "omission_nonempty": 4000, "importance_checked": 1000}},
 			{name: "reduced", n: tierN(14000, 300000), unit: 3500, run: c15Reduced, floors: map[string]int64{"reduced_compared": 5000}},
 			{name: "frequency", n: tierN(24, 96), unit: 1, run: c15Frequency, floors: map[string]int64{"frequency_batteries": 24}},
+			{name: "frequencyLarge", n: tierN(10, 48), unit: 1, run: c15FrequencyLarge, floors: map[string]int64{"large_frequency_batteries": 10},
+				note: "the probability orderings with 13..24 criteria (majority, weights 1..n, half omitted, 1500 seeds each): the least important criteria are omitted more / less often than the most important ones"},
 		},
 	})
 	register(&propDef{
